@@ -194,7 +194,7 @@ def run(res: C.Result):
             kT = c["T"] * kB
             if c["forced"]:
                 t_kin = 2 * r["ke"] / r["dof"]
-                if abs(t_kin - kT) > 1e-10 * kT + 2e-15:
+                if abs(t_kin - kT) > 1e-13 * kT:
                     res.fail("mb:forced-temperature", f"forced refresh gives kinetic temperature {t_kin / kB!r} K, target {c['T']!r} K", {"input": c, "observed": r})
             else:
                 for i in range(3 * n):
